@@ -231,9 +231,13 @@ struct runner
             // (what pika::thread::interrupt() from another task does to a task that then finishes
             // without reaching an interruption point; done on the object directly because
             // interrupt_thread() on the running task itself yields and would throw at once)
+            // the three kinds of dirt are left independently (a reset that only happens under some
+            // combination of the flags must still be noticed): the request always, the other two
+            // each for about half of the dirty tasks
+            unsigned h = (unsigned) ((std::uint64_t) d.id * 0x9E3779B97F4A7C15ull >> 40);
             td::get_thread_id_data(self)->interrupt(true);
-            td::get_thread_id_data(self)->set_interruption_enabled(false);
-            pika::this_thread::set_thread_data(0xD1D1D1D1D1D1D1D1ull);
+            if (h & 1) td::get_thread_id_data(self)->set_interruption_enabled(false);
+            pika::this_thread::set_thread_data((h & 2) ? 0xD1D1D1D1D1D1D1D1ull : 0);
         }
         else { pika::this_thread::set_thread_data(0); }
         o.finished = true;
